@@ -46,6 +46,9 @@ QUICK = [
     _c('no_simult', 'contract_storage', dict(T=2, storage_kw=dict(no_simult_in_out=True)), 'A'),
     _c('max_duration', 'contract_storage', dict(T=4, eff=None, storage_kw=dict(max_store_duration=2, costs=False)), 'A', dict(msd=2)),
     _c('blocks', 'contract_storage', dict(T=4, eff=None, storage_kw=dict(block_size='2h', costs=False)), 'A', dict(blocks='2h')),
+    # storages whose variables act in several steps (own coarser frequency, periodicity): reported series vs physics
+    _c('coarse_storage_q', 'coarse', dict(T=4, kind='storage', eff=0.75, ec=True), 'A', dict(name='co', coarse=True)),
+    _c('periodic_storage', 'periodic', dict(T=4, kind='storage', eff=0.75, ec=True), 'A', dict(name='pe')),
 ] + [MSD_IRREGULAR[0]]
 THOROUGH = QUICK + [
     _c('basic_T5', 'contract_storage', dict(T=5)),
@@ -62,7 +65,7 @@ THOROUGH = QUICK + [
     _c('coarse_storage', 'coarse', dict(T=4, kind='storage', eff=0.75, ec=True), 'A', dict(name='co', coarse=True)),
 ] + MSD_IRREGULAR[1:]
 BOUNDS = dict(quick='shapes %s; T<=4' % [c[0] for c in QUICK], thorough='shapes %s; T<=6' % [c[0] for c in THOROUGH])
-OUTSIDE = ['periodic storages', 'combinations of MIP options with blocks', 'per-minor-step level of a coarse-frequency storage (checked at coarse interval ends only)']
+OUTSIDE = ['combinations of MIP options with blocks', 'per-minor-step level of a coarse-frequency storage (checked at coarse interval ends only)']
 ASSUMPTIONS = ['reported discharge carries a negative sign (EAO convention min(0,-x)); accepted',
                'level_t is the level at the END of step t']
 
